@@ -115,7 +115,12 @@ def patterns(tier):
         def cha(s):
             m = numqi.entangle.CHABoundaryBagging((2, 2), num_state=20)
             rho = numqi.state.Werner(2, 0.8)
-            return m.solve(rho, maxiter=30, seed=s)
+            try:
+                return m.solve(rho, maxiter=30, seed=s)
+            except RuntimeError as ex:
+                # the heuristic may fail to find an initial point for a seed ('Failed to find a good initial state'): the OUTCOME of a
+                # seeded call - value or failure - must still be a function of (arguments, seed)
+                return ('raised', type(ex).__name__, str(ex)[:60])
         add('CHABoundaryBagging.solve(seed)', cha)
 
         def mini(s):
